@@ -95,6 +95,12 @@ public:
 
   void discretize();
 
+  /**
+   * @brief The classes are the given values: their number cannot be changed
+   * (a mixture forwards this call to all its components).
+   */
+  void setNumberOfCategories(size_t nbClasses) {}
+
   void fireParameterChanged(const ParameterList& parameters);
 
   double getLowerBound() const
